@@ -10,6 +10,7 @@
 -/
 import KiraModel.Proofs.SpatialLemmas
 import KiraModel.Model.SpatialScene
+import KiraModel.Props.C15_system
 
 namespace K
 
